@@ -93,6 +93,12 @@ def handleSeq (model : String) (steps : List String) : String := Id.run do
       | none => return "BAD attempts"
       | some as =>
         if model = "c04" then
+          if _kind = "batch" then
+            -- C12/C01: every call of a batch goes to the region owning its key
+            match as.find? (fun a => a.hosted && !a.inRange) with
+            | some a => return s!"SPEC key=key-sent-to-region-not-containing-it kind=batch-{a.kind}"
+            | none => if result ≠ "ok" then return s!"SPEC key=batch-failed-{result}"
+          else
           match judgeReq expect result as with
           | some v => return v
           | none => pure ()
